@@ -191,7 +191,7 @@ def run(
         cfg = os.path.join(tmp, module + ".cfg")
         with open(cfg, "w") as f:
             f.write(cfg_text)
-        cmd = ["java", "-XX:+UseParallelGC", "-Xmx" + heap]
+        cmd = ["java", "-XX:+UseParallelGC", "-Xmx" + heap, "-Djava.io.tmpdir=" + tmp]
         if queue_dfs:
             cmd.append("-Dtlc2.tool.queue.IStateQueue=StateDeque")
         cmd += ["-cp", JAR, "tlc2.TLC", "-workers", str(workers), "-metadir", os.path.join(tmp, "meta")]
